@@ -410,7 +410,8 @@ theorem C08_no_filters (p : Params) (obj : Objective) (start : Int) (n : Nat) (s
 
 /-- the hypothesis `Filters.Preserve` is needed: a sharpening kernel (negative side lobes: -1/8, 5/4, -1/8) applied after the
     clamp takes the in-bounds image `[1, 0, 1]` (upper bound 1) to `[25/16, -5/16, 25/16]` — below 0 and above the upper bound —
-    and `end_of_iteration_processing` hands that out as the iterate (the harness sees the real code do this) -/
+    and `end_of_iteration_processing` hands that out as the iterate (the harness sees the real code do this: known finding
+    `bounds:sharpening-filter-applied-after-clamp`) -/
 theorem C08_in_bounds_fails_after_sharpening_filter :
     endOfIteration { interInterval := 1, inter := some (sepConvYX 1 3 (-1 / 8) (5 / 4) (-1 / 8)) } 5 2 [1, 0, 1]
       = [25 / 16, -5 / 16, 25 / 16] := by
